@@ -87,7 +87,14 @@ def run_case(spec):
     out.label("workload_" + spec.get("workload", "schedule"))
     P = collect(out, {"C06"})
     if rec.exception is not None:
-        out.skipped = "run_raised"      # C08's business, not judged here
+        p = spec["params"]
+        d8 = (p["scheduler_algo"] == "priority-pool" and not p["multi_operator_containers"]
+              and "exactly 1 operator" in str(rec.exception))
+        if d8:
+            out.skipped = "known_finding_of_C08"      # recorded under C08, not judged here
+        else:
+            # a valid run that raises returns no statistics at all (e.g. nothing finished)
+            P("C06:no-statistics", f"tick {rec.exception_tick}: {type(rec.exception).__name__}: {rec.exception}")
         return out
     info = {}
     from eudoxia.simulator import parse_args_with_defaults
